@@ -3,7 +3,7 @@ from harness import common, layera as A, schemes as S
 
 from univers.version_constraint import VersionConstraint
 
-MODULES = ["Univers.Props.C02"]
+MODULES = ["Univers.Props.C02", "Univers.Py.ClassPins"]
 LEVEL = "proof"
 RULE = ("per scheme: grammar-directed, respelled (equal-but-differently-spelled) and mutated pairs of version texts; the real "
         "six operators and hash of the public Version objects against the Lean model of the scheme (operators as Python "
